@@ -7,7 +7,7 @@ from typing import Any, Dict, List, Optional, Tuple
 from . import common, fsconf
 from .common import MachineryError
 
-CRASH_SCENARIOS = ["crash_first_keep", "crash_rekeep", "crash_two_paths"]
+CRASH_SCENARIOS = ["crash_first_keep", "crash_rekeep", "crash_two_paths", "crash_nested", "crash_nested_rekeep"]
 RACE_SCENARIOS = ["race_same_keep_cold", "race_keep_vs_load", "race_rekeep_vs_rekeep"]
 
 
@@ -130,3 +130,74 @@ def validate_fs_traces(rep, traces: List[Dict[str, Any]], name: str = "fstrace")
         # the shim or the POSIX model misrepresents the code: nothing reported on this basis can be trusted
         raise MachineryError("file-system model and recorded calls disagree on %d trace(s): %s" % (nbad, rep.notes[-3:]))
     return len(doc)
+
+
+# ----------------------------------------------------------------------------------------
+# Conformance of the real store with the algorithm model (LocalStoreFSTrace)
+# ----------------------------------------------------------------------------------------
+
+
+def abstract_events(trace: List[Dict[str, Any]]) -> List[List[str]]:
+    """Recorded calls (relative paths, /store/...) -> the mutating events of LocalStoreFSTrace."""
+    evs: List[List[str]] = []
+    for e in trace:
+        op = e["op"]
+        a = e["args"]
+        if not e.get("ok", True):
+            continue
+        tgt = a[-1] if op in ("symlink", "rename", "replace", "link") else a[0]
+        parts = [x for x in tgt.split("/") if x]
+        under_int = "internal" in parts
+        base = parts[-1] if parts else ""
+
+        def what_file(p: str) -> str:
+            b = os.path.basename(p)
+            if ".meta" in b:
+                return "meta"
+            return "blob"
+        if op == "mkdir":
+            if base == "internal" or base == "store":
+                if base == "internal":
+                    evs.append(["mkdir", "internal"])
+            elif base == "blobs":
+                evs.append(["mkdir", "blobs"])
+            elif under_int:
+                evs.append(["mkdir", "other-internal"])
+            elif base.startswith("data"):
+                evs.append(["mkdir", "data"])
+            else:
+                evs.append(["mkdir", "sub"])
+        elif op == "open_w":
+            evs.append(["open", what_file(tgt)] if under_int else ["open", "data-file"])
+        elif op == "write":
+            evs.append(["write%d" % a[1], what_file(tgt)])
+        elif op in ("rename", "replace"):
+            evs.append(["rename", what_file(tgt)] if under_int else ["rename", "link"])
+        elif op in ("unlink", "remove"):
+            evs.append(["remove", what_file(tgt)] if under_int else ["remove", "link"])
+        elif op == "symlink":
+            evs.append(["symlink", "tmp" if ".tmp" in base else "link"])
+        elif op in ("rmdir", "link", "truncate"):
+            evs.append([op, "?"])
+    return evs
+
+
+def conformance(trace: List[Dict[str, Any]], scenario: str, name: str = "conf") -> Dict[str, Any]:
+    """Which write protocol of the model performs exactly the recorded mutating calls?"""
+    evs = abstract_events(trace)
+    res: Dict[str, Any] = {"events": len(evs)}
+    for algo in ("atomic", "inplace"):
+        d = common.stage_spec({"FsConf.tla": fsconf.module(scenario, algo)}, "%s_%s" % (name, algo))
+        tf = os.path.join(d, "events.json")
+        with open(tf, "w") as f:
+            json.dump(evs, f)
+        r = common.run_tlc(d, "LocalStoreFSTrace.tla", "LocalStoreFSTrace.cfg", workers=1, timeout=300, env={"TRACE_FILE": tf})
+        common.tlc_must_pass(r, "LocalStoreFSTrace (%s, %s)" % (scenario, algo))
+        done = r.printed("DONE")
+        ok = any(x["verdict"] == ["ok"] and x["finished"] and x["consumed"] == x["total"] and x["err"] == "" for x in done)
+        res[algo] = ok
+        if not ok:
+            bad = [x for x in done if x["verdict"] != ["ok"]]
+            res[algo + "_first_mismatch"] = bad[0]["verdict"] if bad else (done[-1] if done else None)
+    res["algo"] = "atomic" if res["atomic"] else ("inplace" if res["inplace"] else "neither")
+    return res
